@@ -194,20 +194,43 @@ def _check_re(model, vlib, cmp, rng):
     if "prim_re" not in vlib.fn_table():
         return
     import re
-    pat = re.compile(r"^([0-9]+)([bkmg]?)$", re.IGNORECASE)
-    chars = ["0", "9", "5", "b", "B", "k", "K", "m", "G", "g", "\n", " ", "x", "-", "K", "ı", "١", "１", "",
-             "\r", "M", "ſ", "Ω"]
+    chars = ["0", "9", "5", "b", "B", "k", "K", "m", "G", "g", "\n", " ", "x", "-", "\u212a", "\u0131", "\u0661", "\uff11", "",
+             "\r", "M", "\u017f", "\u03a9", "s", "i", "\u0130"]
     cases = set()
     for n in range(0, 4):
-        for t in itertools.product(chars, repeat=n):
+        for t in itertools.product(chars[:19], repeat=n):
             cases.add("".join(t))
-    for _ in range(500):
-        cases.add("".join(rng.choice(chars + ["1", "2", "0"]) for _ in range(rng.randrange(1, 9))))
-    for s in sorted(cases):
-        m = pat.match(s)
-        want = [] if m is None else [[[ord(c) for c in m.group(1)], [] if m.group(2) is None else [[ord(c) for c in m.group(2)]]]]
-        cmp("re.match(unit_pattern)", s, model.call("prim_re", [0, [ord(c) for c in s]]), want)
-    # int(str) on what group 1 can be, and beyond
-    for s in ["0", "00", "7", "0123", "99999999999999999999", "12", "", "1_0", " 1", "1 ", "+1", "-1", "١", "１２", "1\n", "0x10", "1e3"]:
-        g = model.call("prim_re", [1, [ord(c) for c in s]])
-        cmp("int(str)", s, _res(g), _py(lambda: int(s)))
+    for _ in range(1500):
+        cases.add("".join(rng.choice(chars + ["1", "2", "0", "7"]) for _ in range(rng.randrange(1, 9))))
+    alphabet = "abcdefghijklmnopqrstuvwxyz"
+    for letters in ("bkmg", alphabet, "k", "is"):
+        pat = re.compile(r"^([0-9]+)([%s]?)$" % letters, re.IGNORECASE)
+        cl = [ord(c) for c in letters]
+        for s in sorted(cases):
+            m = pat.match(s)
+            want = [] if m is None else [[[ord(c) for c in m.group(1)], [ord(c) for c in m.group(2)]]]
+            if m is not None and m.group(2) is None:
+                want = "group 2 is None"
+            cmp("re.match(^([0-9]+)([%s]?)$, IGNORECASE)" % letters, s, model.call("prim_re", [0, cl, [ord(c) for c in s]]), want)
+        if letters in ("bkmg", alphabet):
+            # every code point, alone and after a digit
+            for lo in range(0, 0x110000, 0x4000):
+                cs = list(range(lo, lo + 0x4000))
+                got = model.call("prim_re", [2, cl, cs])
+                want = [(1 if pat.match(chr(c)) else 0) + (2 if pat.match("1" + chr(c)) else 0) for c in cs]
+                if got != want:
+                    k = next(i for i in range(len(cs)) if got[i] != want[i])
+                    cmp("re.match(^([0-9]+)([%s]?)$, IGNORECASE) on U+%04X" % (letters, cs[k]), cs[k], got[k], want[k])
+                else:
+                    cmp("re over code points", lo, 0, 0)
+    # int(str): the primitive models strings of ASCII digits only (anything else: Err EUnsupported = code 4)
+    for s in ["0", "00", "7", "0123", "99999999999999999999", "12", "0" * 4300, "0" * 4301, "1" * 4300, "1" * 4301, "9" * 5000,
+              "", "1_0", " 1", "1 ", "+1", "-1", "\u0661", "\uff11\uff12", "1\n", "0x10", "1e3"]:
+        g = model.call("prim_re", [1, [], [ord(c) for c in s]])
+        if s and all(c in "0123456789" for c in s):
+            cmp("int(str of ASCII digits)", s[:30] + ("..." if len(s) > 30 else ""), _res(g), _py(lambda: int(s)))
+        else:
+            cmp("int(str) outside the modelled domain is flagged", s, g, [1, 4])
+    d = {"a": 1, "bc": 2, "": 3, "A": 4}
+    for k in ["a", "bc", "", "A", "b", "c", "ab", "aa", "B"]:
+        cmp("dict[str]", k, _res(model.call("prim_re", [3, [], [ord(c) for c in k]])), _py(lambda: d[k]))
